@@ -46,6 +46,14 @@ pub struct OpsContext<'cxt, C: CellType> {
     temps: [C; 0],
 }
 
+#[cfg(feature = "verif")]
+impl<C: CellType> BcInterpreter<C> {
+    /// Verification hook: the bytecode this interpreter executes.
+    pub fn bytecode(&self) -> &Program<C> {
+        &self.bytecode
+    }
+}
+
 impl<C: CellType> BcInterpreter<C> {
     /// Generate, from the bytecode, the corresponding threaded code.
     fn build_threaded_code(&self, limited: bool, safe: bool) -> Vec<OpCode<C>> {
